@@ -298,7 +298,7 @@ def _strip_comments(src: str) -> str:
     return "".join(out)
 
 
-def lean_build_and_audit(prop: Prop) -> Dict[str, Any]:
+def lean_build_and_audit(prop: Prop, tier: str = "quick") -> Dict[str, Any]:
     """returns {'theorems': [...], 'axioms': {...}, 'problems': [...]}"""
     import fcntl
     import re
@@ -369,7 +369,17 @@ def lean_build_and_audit(prop: Prop) -> Dict[str, Any]:
         bad = [a for a in axs if a not in ALLOWED_AXIOMS]
         if bad:
             problems.append(f"{t} depends on non-standard axioms {bad}")
-    return {"theorems": theorems, "axioms": axioms, "problems": problems, "build_s": build_s}
+    recheck = None
+    if tier == "thorough" and not problems:
+        # independent re-check of the compiled modules by the toolchain's external checker
+        t1 = time.time()
+        p = subprocess.run(["lake", "env", "leanchecker"] + list(prop.lean_modules), cwd=LEAN_DIR,
+                           stdout=subprocess.PIPE, stderr=subprocess.STDOUT, timeout=3000)
+        recheck = {"cmd": "lake env leanchecker " + " ".join(prop.lean_modules), "rc": p.returncode,
+                   "wall_s": round(time.time() - t1, 2)}
+        if p.returncode != 0:
+            problems.append("leanchecker rejected the compiled modules: " + p.stdout.decode()[-800:])
+    return {"theorems": theorems, "axioms": axioms, "problems": problems, "build_s": build_s, "leanchecker": recheck}
 
 
 # --------------------------------------------------------------------------------------------
@@ -409,6 +419,28 @@ def evaluate(prop: Prop, cases: List[Case]) -> (List[Violation], List[Dict[str, 
         if v is not None:
             viols.append(v)
     return viols, impl_res, model_res
+
+
+def collect_cases(prop: Prop, rng: random.Random, tier: str) -> (List[Case], Optional[str]):
+    """Runs the generator. Generators derive some inputs from the real implementation (e.g. pack a
+    valid packet, then truncate it); when the implementation under test refuses such an input the
+    generator itself raises. That is not an infrastructure problem: the cases produced so far are
+    evaluated (the generators emit the direct case before deriving others from it) and the
+    exception is reported as a broken correspondence if nothing concrete is found."""
+    out: List[Case] = []
+    try:
+        for c in prop.cases(rng, tier):
+            out.append(c)
+    except InfraError:
+        raise
+    except BaseException as e:  # noqa
+        tb = traceback.extract_tb(e.__traceback__)
+        inside = [f for f in tb if os.path.abspath(f.filename).startswith(os.path.abspath(REPO))]
+        where = f"{inside[-1].filename}:{inside[-1].lineno} in {inside[-1].name}" if inside else "harness generator"
+        if not inside:
+            raise
+        return out, f"{type(e).__name__}: {str(e)[:200]} (raised at {where} while the generator derived inputs from the implementation)"
+    return out, None
 
 
 def write_replay(prop_id: str, seed: int, n: int, v: Violation, extra: Dict[str, Any]) -> str:
@@ -533,11 +565,11 @@ def do_check(prop: Prop, tier: str, seed: int, t0: float) -> int:
     rng = random.Random((seed * 1000003) ^ int(hashlib.sha256(prop.id.encode()).hexdigest()[:8], 16))
     known = load_known()
     # 1. proofs
-    audit = lean_build_and_audit(prop)
+    audit = lean_build_and_audit(prop, tier)
     # 2. table sync
     sync_diffs = prop.table_sync()
     # 3. correspondence
-    cases = list(prop.cases(rng, tier))
+    cases, gen_error = collect_cases(prop, rng, tier)
     viols, impl_res, model_res = evaluate(prop, cases)
     # distribution
     dist: Dict[str, int] = {}
@@ -558,7 +590,7 @@ def do_check(prop: Prop, tier: str, seed: int, t0: float) -> int:
     concrete = [v for v in viols if v.concrete]
     nonconcrete = [v for v in viols if not v.concrete]
     searched = 0
-    if (nonconcrete or audit["problems"] or sync_diffs) and not concrete:
+    if (nonconcrete or audit["problems"] or sync_diffs or gen_error) and not concrete:
         extra_cases: List[Case] = []
         for v in nonconcrete[:20]:
             base = next((c for c in cases if c.op == v.case), None)
@@ -566,7 +598,7 @@ def do_check(prop: Prop, tier: str, seed: int, t0: float) -> int:
                 extra_cases += list(prop.neighbours(base, rng))
         for s2 in range(1, 4 if tier == "quick" else 8):
             r2 = random.Random(rng.random() + s2)
-            extra_cases += list(prop.cases(r2, tier))
+            extra_cases += collect_cases(prop, r2, tier)[0]
         searched = len(extra_cases)
         if extra_cases:
             v2, _, _ = evaluate(prop, extra_cases)
@@ -613,8 +645,11 @@ def do_check(prop: Prop, tier: str, seed: int, t0: float) -> int:
                 except InfraError:
                     pass
             report(v, n)
-    elif nonconcrete or audit["problems"] or sync_diffs:
-        if nonconcrete:
+    elif nonconcrete or audit["problems"] or sync_diffs or gen_error:
+        if gen_error and not nonconcrete:
+            report(Violation("correspondence", None, None, gen_error, concrete=False,
+                             note="the implementation refused an input the generator derives further cases from: " + gen_error), 0)
+        elif nonconcrete:
             v = nonconcrete[0]
             v.note += f" | correspondence no longer checks for op {v.case.get('op')}; {len(nonconcrete)} differing lines; failing-input search over {searched} further cases found no property failure"
             report(v, 0)
@@ -655,6 +690,7 @@ def do_check(prop: Prop, tier: str, seed: int, t0: float) -> int:
             "axioms_per_theorem": audit["axioms"],
             "proof_problems": audit["problems"],
             "lean_build_s": round(audit.get("build_s", 0.0), 2),
+            "leanchecker": audit.get("leanchecker"),
             "evaluations": len(cases),
             "distinct_nontrivial": nontrivial,
             "rule": "cases come from the structured generator of harness/props/" + prop.id.lower() + ".py seeded by VERIF_SEED (boundary pools, exhaustive sub-domains, malformed stream); distinct = distinct canonical op lines; non-trivial = Prop.nontrivial (not the all-default/zero case)",
@@ -665,6 +701,7 @@ def do_check(prop: Prop, tier: str, seed: int, t0: float) -> int:
             "implementation_verdicts": verdicts,
             "failing_input_search_cases": searched,
             "table_sync_differences": sync_diffs,
+            "generator_error": gen_error,
             "samples": samples,
         },
         "assumptions": list(prop.assumptions),
